@@ -29,6 +29,27 @@ partial def toPExpr : Expr → Option PExpr
   | .range _ op a b => do some (.range (← ttypeOfOp op) (← toPExpr a) (← toPExpr b))
   | .index _ a i _ => do some (.index (← toPExpr a) (← toPExpr i))
   | .call _ f args => do some (.call (← toPExpr f) (← args.mapM toPExpr))
+  | .ifE _ c t e => do
+    let e' ← (match e with
+      | .none => some PElse.none
+      | .els b => do some (PElse.els (← toPBlock b))
+      | .elif x => do some (PElse.elif (← toPExpr x)))
+    some (.ifE (← toPExpr c) (← toPBlock t) e')
+  | .fn _ _ ps b => do some (.fnE ps (← toPBlock b))
+  | _ => none
+partial def toPBlock : Block → Option (List PStmt)
+  | .mk _ ss => ss.mapM toPStmt
+partial def toPStmt : Stmt → Option PStmt
+  | .letS _ _ n e => do some (.letS n (← toPExpr e))
+  | .ret _ none => some .ret0
+  | .ret _ (some e) => do some (.ret (← toPExpr e))
+  | .exprS _ e => do some (.exprS (← toPExpr e))
+  | .block b => do some (.block (← toPBlock b))
+  | .whileS _ none c b => do some (.whileS (← toPExpr c) (← toPBlock b))
+  | .loop _ none b => do some (.loopS (← toPBlock b))
+  | .breakS _ l => some (.breakS l)
+  | .continueS _ l => some (.continueS l)
+  | .fnS _ _ n ps b => do some (.fnS n ps (← toPBlock b))
   | _ => none
 end
 
@@ -54,6 +75,38 @@ def modelOf (src : String) : String :=
     | .fuel => "MODEL-FUEL"
   | .panic => "MODEL-SKIP"
   | .fuel => "MODEL-SKIP"
+
+def specOfProg (sx : String) : String :=
+  if sx == "(perr)" then "eq perr" else
+  match readProgram sx with
+  | some p =>
+    match p.stmts.mapM toPStmt with
+    | some ss => "eq ok (prog" ++ canonStmts ss ++ ")"
+    | none => "any"
+  | none => "any"
+
+def modelOfProg (src : String) : String :=
+  match Scanner.scan src with
+  | .ok ts =>
+    match parseProgramTokens ts with
+    | .ok ss => "ok (prog" ++ canonStmts ss ++ ")"
+    | .err => "perr"
+    | .skip => "MODEL-SKIP"
+    | .fuel => "MODEL-FUEL"
+  | .panic => "MODEL-SKIP"
+  | .fuel => "MODEL-SKIP"
+
+/-- `pprog <hex of program source> @@ <AST s-expression of the real parser>` (C01) -/
+def runProg (line : String) : String :=
+  match line.splitOn " @@ " with
+  | [l, sx] =>
+    match words l with
+    | [_, hex] =>
+      match (unhex hex).bind (fun bs => String.fromUTF8? (ByteArray.mk (bs.map UInt8.ofNat).toArray)) with
+      | some src => result (modelOfProg src) (specOfProg sx.trimAscii.toString)
+      | none => "bad-op"
+    | _ => "bad-op"
+  | _ => "bad-op"
 
 def run (line : String) : String :=
   match line.splitOn " @@ " with
